@@ -129,7 +129,7 @@ def opClientReal (args : List String) (impl : String) : Verdict :=
   match args with
   | [v, keyopt, nreqS] =>
     let imp := parseKvs impl " "
-    let nreq := nreqS.toNat!
+    let nreq := ((nreqS.splitOn "+").headD "0").toNat!
     let outs := let s := kvLookup imp "out"; if s = "-" ∨ s = "" then [] else s.splitOn "|"
     let vers := let s := kvLookup imp "ver"; if s = "-" ∨ s = "" then [] else s.splitOn "|"
     let t0 := parseTime (kvLookup imp "t0")
@@ -155,5 +155,17 @@ def opProcLeak (args : List String) (impl : String) : Verdict :=
     else if (kvLookup imp "bytes").toNat! = 0 then l2 label "no output captured from the server process"
     else ok label
   | _ => bad "procleak: arity"
+
+/-- `cfgleak <scenario> <seed>`  impl: leak= bytes= records= — what the configuration loaders log or report -/
+def opCfgLeak (args : List String) (impl : String) : Verdict :=
+  match args with
+  | [scenario, _] =>
+    let imp := parseKvs impl " "
+    let label := "cfgleak:" ++ scenario
+    let leak := kvLookup imp "leak"
+    if leak = "?" ∨ leak = "" then bad "cfgleak: probe gave no verdict"
+    else if leak ≠ "0" then l1 label ("C20: secret material in a log record / error text of the configuration loader: " ++ leak)
+    else ok label ("records=" ++ kvLookup imp "records")
+  | _ => bad "cfgleak: arity"
 
 end Rough.Driver
